@@ -163,4 +163,24 @@ theorem report_loops_tree_matches_source (answer : Bool) :
   cases answer <;> simp [Gen.Src.c07AcceptLoopTree, Gen.Src.c07TransmitLoopTree, Gen.Src.c07AcceptReportTree,
     Gen.Src.c07TransmitReportTree]
 
+/-- the body of the `FilterProposals` loop is left only by falling off its end (the proposal is appended) or
+by `continue` — never by `break` or `return`: dropping one proposal never drops the ones after it (what
+`filterLoop` does: it always goes on with the rest) -/
+theorem filterProposals_exit_kind_matches_source (found pending : Bool) (utype ttype : Nat) :
+    Gen.Src.c07FilterProposalsTreeKind (Gen.Src.c07FilterProposalsTree found pending utype ttype) =
+      (if Gen.Src.c07FilterProposalsTree found pending utype ttype = 0 then 0 else 2) := by
+  simp only [Gen.Src.c07FilterProposalsTree]
+  cases found <;> cases pending <;> by_cases h : (decide (utype = 1) && decide (ttype = 1)) = true <;>
+    simp [h, Gen.Src.c07FilterProposalsTreeKind]
+
+/-- `ShouldAcceptAttestedReport` / `ShouldTransmitAcceptedReport` pair their results as (answer, error): the
+error is the literal `nil` exactly at the final return, and a decode error is handed on at exit 1 -/
+theorem report_error_pairing_matches_source :
+    Gen.Src.c07AcceptReportTreeNil2 1 = false ∧ Gen.Src.c07AcceptReportTreeNil2 2 = true ∧
+    Gen.Src.c07TransmitReportTreeNil2 1 = false ∧ Gen.Src.c07TransmitReportTreeNil2 2 = true ∧
+    Gen.Src.c07AcceptReportTreeNil1 2 = false ∧ Gen.Src.c07TransmitReportTreeNil1 2 = false ∧
+    Gen.Src.c07AcceptReportTreeKind 1 = 1 ∧ Gen.Src.c07AcceptReportTreeKind 2 = 1 ∧
+    Gen.Src.c07TransmitReportTreeKind 1 = 1 ∧ Gen.Src.c07TransmitReportTreeKind 2 = 1 := by
+  decide
+
 end AutoVerif.C07
